@@ -87,8 +87,12 @@ class Corr(Job):
     """implementation vs Lean model on the same operation sequence"""
     kind = "corr"
 
-    def __init__(self, e, mode, ops, projection, scale=1.0, both_builds=False, n=1):
+    def __init__(self, e, mode, ops, projection, scale=1.0, both_builds=False, n=1, info=False, risky=False):
         self.e, self.mode, self.ops, self.projection, self.scale, self.both, self.n = e, mode, ops, projection, scale, both_builds, n
+        # info: inputs outside every property's domain (extreme magnitudes): a difference is recorded in the evidence, never reported.
+        # risky: a chain in which an inner view's rounding residue can push the outer view out of its domain (ln / division of a
+        # value that is 0 only up to rounding): whether the finiteness `debug_assert!` fires there is not comparable with the model
+        self.info, self.risky = info, risky
 
     def case(self):
         return Case(self.mode, gen.render(self.e, self.mode), self.ops)
@@ -108,6 +112,8 @@ class Corr(Job):
         b = [l for l in model[0] if not l.startswith("Z")]
         ok, i, bit = compare_lines(self.mode, a, b, self.projection, self.scale)
         self.bit, self.lines = bit, len(a)
+        if not ok and self.risky and i < len(a) and i < len(b) and {a[i][:1], b[i][:1]} == {"P", "S"} and "debug" in (a[i] + b[i]):
+            return None
         if not ok:
             # a difference of VALUES only (same None/Some/panic pattern throughout) at f64 may be mere rounding: see run_jobs
             value_only = self.mode != "q" and compare_lines(self.mode, a, b, "pattern", self.scale)[0]
@@ -123,6 +129,8 @@ class Corr(Job):
             if k is not None:
                 r, b = r[:k], b[:k]
             ok, i, _ = compare_lines(self.mode, r, b, self.projection, self.scale)
+            if not ok and self.risky:
+                return None
             if not ok:
                 value_only = self.mode != "q" and compare_lines(self.mode, r, b, "pattern", self.scale)[0]
                 return dict(explanation="release build (debug assertions off) and Lean model disagree at output line %d" % i,
@@ -135,19 +143,20 @@ class Corr(Job):
 
     def to_json(self):
         return dict(kind=self.kind, e=jexpr(self.e), mode=self.mode, ops=self.ops, projection=self.projection,
-                    scale=self.scale, both=self.both, n=self.n)
+                    scale=self.scale, both=self.both, n=self.n, info=self.info, risky=self.risky)
 
     @staticmethod
     def from_json(d):
-        return Corr(uexpr(d["e"]), d["mode"], d["ops"], d["projection"], d.get("scale", 1.0), d.get("both", False), d.get("n", 1))
+        return Corr(uexpr(d["e"]), d["mode"], d["ops"], d["projection"], d.get("scale", 1.0), d.get("both", False), d.get("n", 1),
+                    d.get("info", False), d.get("risky", False))
 
     def shrink_candidates(self):
         ops = self.ops
         out = []
         if len(ops) > 2:
-            out.append(Corr(self.e, self.mode, ops[: len(ops) // 2], self.projection, self.scale, self.both, self.n))
-            out.append(Corr(self.e, self.mode, ops[:-1], self.projection, self.scale, self.both, self.n))
-            out.append(Corr(self.e, self.mode, ops[1:], self.projection, self.scale, self.both, self.n))
+            out.append(Corr(self.e, self.mode, ops[: len(ops) // 2], self.projection, self.scale, self.both, self.n, self.info, self.risky))
+            out.append(Corr(self.e, self.mode, ops[:-1], self.projection, self.scale, self.both, self.n, self.info, self.risky))
+            out.append(Corr(self.e, self.mode, ops[1:], self.projection, self.scale, self.both, self.n, self.info, self.risky))
         return out
 
 
